@@ -3,6 +3,7 @@ package main
 import (
 	"encoding/json"
 	"fmt"
+	"sort"
 	"strconv"
 )
 
@@ -66,6 +67,7 @@ func respell(v any) any {
 		for k := range v {
 			keys = append(keys, k)
 		}
+		sort.Strings(keys) // fixed PRNG consumption order
 		for i := len(keys) - 1; i >= 0; i-- {
 			c[keys[i]] = respell(v[keys[i]])
 		}
@@ -409,6 +411,24 @@ func genC18(tier, out string, sum *Summary) {
 			}
 		}
 	}
+	// lets on both sides of the pipe, with the same names, null bindings and shadowing: the scopes of e1 and e2
+	// must not leak into each other whether the texts are joined or the searches are run one after the other
+	ldoc := map[string]any{"a": map[string]any{"b": json.Number("1"), "d": []any{json.Number("1"), json.Number("2")}}, "k": "top", "b": json.Number("7")}
+	for _, t1 := range []string{"let $v = a in $v", "let $w = k in a", "let $v = a, $w = b in $v", "let $v = `null` in a", "a", "let $v = k in let $v = a in $v"} {
+		for _, t2 := range []string{"let $v = c in [$v]", "let $v = `null` in [$v, b]", "let $w = missing in [$w, b]", "let $v = c in let $w = $v in [$w]", "let $v = b in let $v = c in [$v]", "let $v = b in [let $v = `null` in $v, $v]", "[b, let $w = `null` in $w]", "let $v = d in $v[?@ > `1`]"} {
+			o1 := search(t1, ldoc)
+			if o1.Kind != "val" {
+				continue
+			}
+			o2 := search(t2, o1.Value)
+			sum.count("let-pipe")
+			for _, joined := range []string{t1 + " | " + t2, "(" + t1 + ") | (" + t2 + ")", "(" + t1 + ") | " + t2} {
+				if oc := search(joined, ldoc); !sameObs(o2, oc, false) {
+					sum.direct("requery", joined, ldoc, fmt.Sprintf("searching e2 over the result of e1 gives %s but the piped text gives %s", describe(o2), describe(oc)))
+				}
+			}
+		}
+	}
 	// whatever literal Compile accepts must give a result that serialises and can be queried again
 	for _, lit := range []string{"007", "-01.5", "00", "010", "1.", "1.e1", ".5", "+1", "1e", "1e+", "0x1", "01e2", "-", "1_0", "-0", "0e0", "1E400", "1e-400", "[01]", "{\"a\":01}", "[1,]", "[1 2]", "\"\\x\"", "'a'", "nul", "tru", "NaN", "Infinity", "1/2", "1 2", "1e05", "-0.0e-0", "[-]", "[.1]", "{\"a\":+1}", "1e99999", "\"\\ud800\"", "\"\\udc00\\ud800\"", "[1,,2]", "{\"a\":1,}", "{a:1}", "\"a\nb\"", "\"\t\"", " 1 ", "1 ", "true false", "null", "\"\\u00e9\""} {
 		for _, form := range []string{"`%s`", "[`%s`, a]", "{n: `%s`}", "a || `%s`", "[`%s`][0]", "to_array(`%s`)"} {
@@ -458,6 +478,7 @@ func rebuild(v any) any {
 		for k := range v {
 			keys = append(keys, k)
 		}
+		sort.Strings(keys) // fixed PRNG consumption order
 		rng.Shuffle(len(keys), func(i, j int) { keys[i], keys[j] = keys[j], keys[i] })
 		c := make(map[string]any, rng.Intn(8))
 		for _, k := range keys {
@@ -643,8 +664,13 @@ func floatDoc(v any) any {
 		return c
 	case map[string]any:
 		c := map[string]any{}
-		for k, x := range v {
-			c[k] = floatDoc(x)
+		keys := make([]string, 0, len(v))
+		for k := range v {
+			keys = append(keys, k)
+		}
+		sort.Strings(keys) // fixed PRNG consumption order
+		for _, k := range keys {
+			c[k] = floatDoc(v[k])
 		}
 		return c
 	}
@@ -691,6 +717,7 @@ func nearMiss(v any) any {
 			c["a"] = nil
 			return c
 		}
+		sort.Strings(keys) // map order must not decide which key the PRNG picks
 		k := pick(keys)
 		switch rng.Intn(4) {
 		case 0: // rename a key, keep the value (same size, different key set)
